@@ -49,6 +49,8 @@ MODES = {
     "caught_library_refusals_then_end": ("import pysnark.runtime as _r\nfor _f in (lambda: PrivVal(3).assert_eq(4), lambda: _r.add_constraint(PrivVal(2), PrivVal(3), PrivVal(7)),\n"
                                          "           lambda: PrivVal(1) / PrivVal(0), lambda: PrivVal(5).assert_lt(2), lambda: PrivVal(2) * 'x'):\n"
                                          "    try:\n        _f()\n    except (AssertionError, ZeroDivisionError, ValueError, RuntimeError, TypeError):\n        pass", True),
+    # a script that has test / debugging frameworks loaded (for their helpers) is a script like any other
+    "frameworks_imported_then_end": ("import unittest, doctest, pdb, logging\ntry:\n    import pytest\nexcept ImportError:\n    pass", True),
     "sys_exit_msg": ("sys.exit('stop: invalid input')", False),
     "sys_exit_empty_str": ("sys.exit('')", False),
     "sys_exit_empty_list": ("sys.exit([])", False),
